@@ -88,9 +88,9 @@ func (ssm *serverSessionMedia) start() error {
 		if ssm.ss.setuppedTransport.Protocol == ProtocolUDP {
 			if ssm.ss.state == ServerSessionStatePlay {
 				if ssm.media.IsBackChannel {
-					ssm.ss.s.udpRTPListener.addClient(ssm.ss.author.ip(), ssm.udpRTPReadPort, ssm.readPacketRTPUDPPlay)
+					ssm.ss.s.udpRTPListener.addClient(ssm.ss.author.ip(), ssm.ss.author.zone(), ssm.udpRTPReadPort, ssm.readPacketRTPUDPPlay)
 				}
-				ssm.ss.s.udpRTCPListener.addClient(ssm.ss.author.ip(), ssm.udpRTCPReadPort, ssm.readPacketRTCPUDPPlay)
+				ssm.ss.s.udpRTCPListener.addClient(ssm.ss.author.ip(), ssm.ss.author.zone(), ssm.udpRTCPReadPort, ssm.readPacketRTCPUDPPlay)
 			} else {
 				// open the firewall by sending empty packets to the remote part.
 				buf, _ := (&rtp.Packet{Header: rtp.Header{Version: 2}}).Marshal()
@@ -121,8 +121,8 @@ func (ssm *serverSessionMedia) start() error {
 					return err
 				}
 
-				ssm.ss.s.udpRTPListener.addClient(ssm.ss.author.ip(), ssm.udpRTPReadPort, ssm.readPacketRTPUDPRecord)
-				ssm.ss.s.udpRTCPListener.addClient(ssm.ss.author.ip(), ssm.udpRTCPReadPort, ssm.readPacketRTCPUDPRecord)
+				ssm.ss.s.udpRTPListener.addClient(ssm.ss.author.ip(), ssm.ss.author.zone(), ssm.udpRTPReadPort, ssm.readPacketRTPUDPRecord)
+				ssm.ss.s.udpRTCPListener.addClient(ssm.ss.author.ip(), ssm.ss.author.zone(), ssm.udpRTCPReadPort, ssm.readPacketRTCPUDPRecord)
 			}
 		}
 	}
@@ -132,8 +132,8 @@ func (ssm *serverSessionMedia) start() error {
 
 func (ssm *serverSessionMedia) stop() {
 	if ssm.ss.setuppedTransport.Protocol == ProtocolUDP {
-		ssm.ss.s.udpRTPListener.removeClient(ssm.ss.author.ip(), ssm.udpRTPReadPort)
-		ssm.ss.s.udpRTCPListener.removeClient(ssm.ss.author.ip(), ssm.udpRTCPReadPort)
+		ssm.ss.s.udpRTPListener.removeClient(ssm.ss.author.ip(), ssm.ss.author.zone(), ssm.udpRTPReadPort)
+		ssm.ss.s.udpRTCPListener.removeClient(ssm.ss.author.ip(), ssm.ss.author.zone(), ssm.udpRTCPReadPort)
 	}
 }
 
